@@ -55,6 +55,12 @@ class MapFiller(Visitor):
         return circuitbuilder.build(sexpr, inject_pulses=inject_pulses)
 
     def visit_BlockStatement(self, block):
+        if block.subcircuit:
+            return [
+                "subcircuit_block",
+                self.visit(block.iterations),
+                *(self.visit(stmt) for stmt in block.statements),
+            ]
         if block.parallel:
             block_type = "parallel_block"
         else:
@@ -97,7 +103,7 @@ class MapFiller(Visitor):
 
         """
 
-        if reg.is_fundamental:
+        if reg.fundamental:
             return reg
 
         raise JaqalError(
